@@ -101,6 +101,7 @@ CHECKS = {
         "assumptions": ["Python's operator dispatch is modelled without subclass priority of the right operand; semantics of the builtin types themselves are not modelled (sampled differentially)"],
     },
     "C19": {
+        "extra_props": ["Props/C19_src.v"],
         "modules": ["p_c19"],
         "gen_lemmas": ["_customize / bind / flat_bind shapes", "every with_* propagates the name", "BoundCallable carries the executor's name"],
         "rule": "seeded paired programs: random chains (0-2 layers before bind, 0-3 after; map, flat_map, retry, throttle, timeout, "
@@ -111,7 +112,7 @@ CHECKS = {
         "assumptions": ["executor stacks are modelled as layer lists (Model/Bind.v); behaviour of each layer is the other properties' business"],
     },
     "C01": {
-        "extra_props": ["Props/C01_link.v"],
+        "extra_props": ["Props/C01_link.v", "Props/C01_src.v"],
         "modules": ["p_c01", "p_c01r", "p_c01m", "p_c01p"],
         "rule": "p_c01r / p_c01m / p_c01p: the single-layer lockstep families of C05, C13, C08 with the own-outcome verdicts of their monitors; seeded random stacks: depth 1-6 over {map, flat_map, poll, retry, throttle, timeout, cancel_on_shutdown} in any order, "
                 "base sync or the real ThreadPoolExecutor (1-3 workers) run under the scheduler, 1-4 submissions from 1-3 client threads, "
